@@ -158,9 +158,12 @@ def case_C20(seed):
     lat0, lon0 = rnd.choice(ANCHORS)
     p0 = (lat0 + rnd.uniform(-0.05, 0.05), lon0 + rnd.uniform(-0.05, 0.05))
     gp = [p0]
-    far = seed % 5 == 2          # 'every trace': legs of hundreds to thousands of kilometres as well (but shorter than a quarter of the globe)
+    tiny = seed % 7 == 5
+    far = seed % 5 == 2 and not tiny          # 'every trace': legs of hundreds to thousands of kilometres as well (but shorter than a quarter of the globe)
     for _ in range(n - 1):
         leg = 10 ** rnd.uniform(5.5, math.log10(9.0e6)) if far else 10 ** rnd.uniform(0, math.log10(60000))
+        if tiny:
+            leg = 10 ** rnd.uniform(-1.5, 0.0)       # a high-rate (RTK-like) trace: fixes 3 cm .. 1 m apart
         q_ = G.destination(gp[-1], rnd.uniform(0, 360), leg)
         if abs(q_[0]) > 80:
             q_ = G.destination(gp[-1], 90.0, leg)
@@ -179,7 +182,15 @@ def case_C20(seed):
     glens = [G.gc_distance(a, b) for a, b in zip(gp, gp[1:])] or [1.0]
     gdd = max(glens) * 10 ** rnd.uniform(-2, 1)
     gout = dl.interpolate_path(gp, gdd)
-    bad = check_interp(gp, gout, gdd, G.gc_distance, lambda q, a, b: G.nearest_on_arc(q, a, b)[0], 1e-9, tol_on=(0.01 if not far else 1.0))
+    if tiny:
+        # at centimetre scale the 3-D unit-vector reference is too coarse (the normal of a 10 cm arc is known to 1e-16/1.5e-8
+        # rad, i.e. centimetres on the ground): local tangent plane at the first fix instead (exact to 1e-12 over metres)
+        o_ = gp[0]
+        lp_ = lambda q: G.local_project(q, o_)
+        bad = check_interp(gp, gout, gdd, lambda a, b: math.hypot(lp_(a)[0] - lp_(b)[0], lp_(a)[1] - lp_(b)[1]),
+                           lambda q, a, b: planar_off_segment(lp_(q), lp_(a), lp_(b)), 1e-7, tol_on=1e-4)
+    else:
+        bad = check_interp(gp, gout, gdd, G.gc_distance, lambda q, a, b: G.nearest_on_arc(q, a, b)[0], 1e-9, tol_on=(0.01 if not far else 1.0))
     if bad and not viol:
         viol.append(('C20:latlon-' + bad[0], f"interpolate_path(lat-lon, dd={gdd}): {bad[1]}", {'path': gp, 'dd': gdd}))
     return {'nontrivial': nontriv, 'violations': viol, 'sample': {'planar': pts, 'dd': dd}}
